@@ -52,6 +52,10 @@ func genReuse(t *rapid.T) ReuseIn {
 		// the concrete types differ from value to value
 		in.Vals = append(in.Vals, gen.Value(in.S, gen.ValOpts{Null: true, Unknown: true, MaxElems: 2}).Draw(t, "val"))
 	}
+	if in.S.K == spec.KDynamic && rapid.IntRange(0, 2).Draw(t, "identity") == 0 {
+		// the target is exactly the type one of the values already has
+		in.T = in.Vals[rapid.IntRange(0, n-1).Draw(t, "idof")].T
+	}
 	return in
 }
 
@@ -113,6 +117,20 @@ func checkReuse(c *facet.Ctx, in ReuseIn) error {
 			}
 			if (got.err == nil) != (want.err == nil) {
 				return facet.Failf("reuse-outcome", "%s(%s, %s) applied to %#v as call %d on one conversion object: %s; a fresh conversion object: %s", name, in.S, in.T, v, step+1, describe(got), describe(want))
+			}
+			if in.S.K == spec.KDynamic {
+				// A conversion looked up for the placeholder source can only
+				// decide once it sees the value, so it must do what Convert does
+				// for that value (in particular: nothing, for a value that
+				// already has the target type).
+				direct := doConvert(v, tgt)
+				if direct.pan == "" && (direct.err == nil) != (got.err == nil) {
+					return facet.Failf("dynamic-source-vs-convert", "%s(dynamic, %s) applied to %#v: %s; Convert of the same value to the same type: %s", name, in.T, v, describe(got), describe(direct))
+				}
+				if direct.pan == "" && direct.err == nil && !got.v.RawEquals(direct.v) {
+					return facet.Failf("dynamic-source-vs-convert", "%s(dynamic, %s) applied to %#v gives %#v; Convert gives %#v", name, in.T, v, got.v, direct.v)
+				}
+				c.Label("dynamic-source-vs-convert")
 			}
 			if got.err == nil {
 				if f := wf.Check(got.v); f != nil {
